@@ -82,9 +82,9 @@ func checkMain(args []string) int {
 	}
 	outDir := filepath.Join(*verif, "out", fmt.Sprintf("%s-%s-%d", prop, *tier, os.Getpid()))
 	os.MkdirAll(outDir, 0o755)
-	opts := solveOpts{outDir: outDir, quickS: 10, retryS: 20, seed: seed, keep: *keep}
+	opts := solveOpts{outDir: outDir, quickS: 20, retryS: 60, seed: seed, keep: *keep}
 	if *tier == "thorough" {
-		opts.quickS, opts.retryS = 60, 120
+		opts.quickS, opts.retryS = 60, 180
 	}
 	type unit struct {
 		fc  *FnCtx
